@@ -505,7 +505,10 @@ def run(ctx, col: Collector):
                 if a.node is None or a.kind == 'internal':
                     continue
                 tokp = a.tok_param()
-                for c in ast.walk(a.node):
+                from ..grammar import action_value
+                # locals of the action are substituted (`text = tok[0]; int(text)`), so the conversion's argument is read in terms of the tokens
+                root = action_value(a, idx.modules[a.module].tree if a.module in idx.modules else None) or a.node
+                for c in ast.walk(root):
                     if isinstance(c, ast.Call) and isinstance(c.func, ast.Name) and c.func.id in ('int', 'float') and c.args \
                             and any(isinstance(x, ast.Name) and x.id == tokp for x in ast.walk(c.args[0])):
                         key = (a.key, c.func.id, g.module, g.line)
